@@ -195,10 +195,76 @@ func c18GenGHist(r *zzverif.Rng, out *zzverif.Out) *c18GHist {
 			h.seed = 7
 		}
 	}
+	if r.Chance(1, 8) { // the production default for structured outputs: a grammar on an UNSEEDED sampler
+		h.seed = -1
+	}
 	for j := 0; j < r.Range(1, 5); j++ {
 		h.calls = append(h.calls, c18GenGLogits(r, out))
 	}
 	return h
+}
+
+// c18RunGHistUnseeded: grammar + seed -1 (`rng == nil`).  The numbers come from the process-wide generator, so
+// neither the path (first pick accepted / retry) nor the draws can be replayed through the model; what holds on
+// EITHER path is evaluated on every real result: the token is accepted by the grammar, and — with respect to the
+// masked logits — it is in range, not -Inf, an arg-max at temperature 0, and inside the top-k window (a first
+// pick that was accepted is in the top-k of the original logits, hence of the masked ones, which are pointwise
+// smaller or equal).
+func c18RunGHistUnseeded(out *zzverif.Out, g *Grammar, h *c18GHist, line string) {
+	realS := NewSampler(h.temp, h.k, h.p, h.mp, h.seed, g)
+	out.Case(fmt.Sprintf("newrng %d", h.seed), c18RngKind(&realS))
+	if realS.rng != nil {
+		return
+	}
+	n := len(c18VocabTokens)
+	for j, logits0 := range h.calls {
+		if len(logits0) != n {
+			break
+		}
+		logits := append([]float32(nil), logits0...)
+		probe := c18Toks(make([]float32, n))
+		g.Apply(probe)
+		var acc []int
+		accSet := map[int32]bool{}
+		for _, t := range probe {
+			if !math.IsInf(float64(t.value), -1) {
+				acc = append(acc, int(t.id))
+				accSet[t.id] = true
+			}
+		}
+		if len(acc) == 0 {
+			out.Count("grammar_dead_end")
+			break
+		}
+		someAccFinite := false
+		for _, id := range acc {
+			if c18Finite(logits[id]) {
+				someAccFinite = true
+			}
+		}
+		if !someAccFinite {
+			logits[acc[0]] = 1
+		}
+		masked := make([]float32, n)
+		for i := range masked {
+			masked[i] = c18NegInf
+			if accSet[int32(i)] {
+				masked[i] = logits[i]
+			}
+		}
+		c2 := &c18Case{temp: h.temp, p: h.p, mp: h.mp, k: h.k, seed: h.seed, logits: masked}
+		spec := c18Spec(c2)
+		res := c18CallSample(&realS, append([]float32(nil), logits...))
+		out.Count("grammar_unseeded_calls")
+		callLine := fmt.Sprintf("%s # call=%d grammar unseeded accepted=%v", line, j, acc)
+		if res.pnc == nil && res.err == nil && res.id >= 0 && int(res.id) < n && !accSet[res.id] {
+			out.L2("grammar-rejected-token", callLine, fmt.Sprintf("id=%d is not accepted by the grammar at this point", res.id))
+		}
+		c18L2(out, c2, &spec, res, callLine, nil)
+		if res.err != nil || res.pnc != nil {
+			break
+		}
+	}
 }
 
 func c18Finite(v float32) bool { return v == v && !math.IsInf(float64(v), 0) }
@@ -212,6 +278,10 @@ func c18RunGHist(out *zzverif.Out, vocab *Vocab, h *c18GHist, fix bool) {
 	g, err := NewGrammar(vocab, h.grammar)
 	if err != nil || g == nil || g.sampler == nil {
 		out.Count("grammar_init_failed")
+		return
+	}
+	if h.seed == -1 {
+		c18RunGHistUnseeded(out, g, h, line)
 		return
 	}
 	realS := NewSampler(h.temp, h.k, h.p, h.mp, h.seed, g)
